@@ -29,12 +29,25 @@ fn vs_str(s: &VarSet) -> String {
 /// `kind=book`: a history of updates of two partial models and two variable sets, every
 /// observer printed after every update (C15: "partial-model and variable-set bookkeeping")
 fn book_line(rng: &mut Rng, maxvars: usize, maxops: usize) -> String {
-    let n = rng.range(1, maxvars as u64) as usize;
+    // one line in four works over a wide universe (indices beyond one and beyond two 32-bit
+    // blocks of the underlying bit sets)
+    let n = if rng.chance(1, 4) { rng.range(33, 70) as usize } else { rng.range(1, maxvars as u64) as usize };
     let nsteps = rng.range(2, maxops as u64) as usize;
     // commands: which object (0/1), which operation, variable, value; overwrites of an already
     // assigned variable (with and without a change of value) are frequent on purpose
     let cmds: Vec<(u64, u64, usize, bool)> =
-        (0..nsteps).map(|_| (rng.below(2), rng.below(8), rng.below(n as u64) as usize, rng.coin())).collect();
+        (0..nsteps)
+            .map(|_| {
+                // a handful of distinct indices so that updates revisit variables; in a wide
+                // universe half of them lie at or above index 32
+                let v = if n > 32 {
+                    std::cmp::min([0, 1, 31, 32, 33, 40, 63, 64, n - 1][rng.below(9) as usize], n - 1)
+                } else {
+                    rng.below(n as u64) as usize
+                };
+                (rng.below(2), rng.below(8), v, rng.coin())
+            })
+            .collect();
     let head = format!(
         "cnf kind=book n={} cmds={}",
         n,
@@ -73,7 +86,10 @@ fn book_line(rng: &mut Rng, maxvars: usize, maxops: usize) -> String {
                 // a total model built by `from_total_model` agrees with `from_assignments`
                 let tot: Vec<bool> = a.iter().map(|o| o.unwrap_or(false)).collect();
                 let tot_o: Vec<Option<bool>> = tot.iter().map(|b| Some(*b)).collect();
-                same && PartialModel::from_total_model(&tot) == PartialModel::from_assignments(&tot_o)
+                // the same partial model declared over a larger universe is the same partial model
+                let lits: Vec<Literal> = m.assignment_iter().collect();
+                let wider = PartialModel::from_litvec(&lits, n + 37);
+                same && wider == *m && PartialModel::from_total_model(&tot) == PartialModel::from_assignments(&tot_o)
             };
             obs.push(format!(
                 "{}/{}/{}/{}/{}/{}/{}/{}{}{}{}/{}{}/{}/{}/{}/{}/{}/{}/{}/{}/{}{}{}{}",
